@@ -186,6 +186,7 @@ func familyFName(thorough bool) []*scen.Cell {
 // counterpart.
 
 type f3Meta struct {
+	Emb       int
 	ViaGetter bool
 	Dst, Src  string
 	SrcPtr    int
@@ -289,7 +290,7 @@ func familyF3(thorough bool) []*scen.Cell {
 						ID:     fmt.Sprintf("f3_%s_%s_%d_%s", sd.id, ss.id, emb, scen.DigitsID(tog)),
 						Family: "F3-struct-shapes",
 						Files:  map[string]string{"setup.go": setup},
-						Meta:   f3Meta{Dst: sd.id, Src: ss.id, Tog: tog},
+						Meta:   f3Meta{Dst: sd.id, Src: ss.id, Tog: tog, Emb: emb},
 					})
 				})
 			}
